@@ -4,6 +4,9 @@
 # inputs of the targets that serve <ID>, then runs one campaign per target from a fresh deterministic
 # corpus with -runs=N -seed=VERIF_SEED.  Prints VIOLATION ... on a crash (exit 1), merges the campaign
 # figures into evidence/<ID>.json.  Build problems / timeouts are exit 2 (inconclusive).
+# LeakSanitizer is off (-detect_leaks=0): none of the properties speaks about leaks, and a
+# 1-byte block that ASan hands out for a zero-sized request inside rkyv's Rc<str>
+# deserializer is reported as a leak on some mangled archives (DESIGN section 16).
 set -u
 ID=$1
 case $ID in
@@ -29,14 +32,14 @@ for t in $TARGETS; do
   # 1. regression inputs
   for f in /verif/replays/fuzz/$t/*; do
     [ -f "$f" ] || continue
-    if ! timeout 120 $BIN/$t "$f" > /tmp/fuzz-replay-$$.log 2>&1; then
+    if ! timeout 120 $BIN/$t -detect_leaks=0 "$f" > /tmp/fuzz-replay-$$.log 2>&1; then
       grep -a -m3 -E "ERROR|panicked|VERIF-ORACLE" /tmp/fuzz-replay-$$.log | cut -c1-300
       echo "VIOLATION property=$ID replay=$f"; exit 1
     fi
   done
   # 2. campaign from a fresh copy of the deterministic corpus
   W=fuzz/work/$t; rm -rf $W; mkdir -p $W fuzz/artifacts/$t; cp fuzz/corpus/$t/* $W/
-  timeout 3000 $BIN/$t $W -runs=$RUNS -seed=$SEED -len_control=0 -max_len=8192 -timeout=120 -rss_limit_mb=4096 -artifact_prefix=fuzz/artifacts/$t/ > /tmp/fuzz-run-$$.log 2>&1
+  timeout 3000 $BIN/$t $W -runs=$RUNS -seed=$SEED -len_control=0 -max_len=8192 -timeout=120 -rss_limit_mb=4096 -detect_leaks=0 -artifact_prefix=fuzz/artifacts/$t/ > /tmp/fuzz-run-$$.log 2>&1
   code=$?
   if grep -a -q "Test unit written to" /tmp/fuzz-run-$$.log; then
     art=$(grep -a -m1 "Test unit written to" /tmp/fuzz-run-$$.log | sed 's/.*written to //')
